@@ -30,4 +30,7 @@ static inline double rnd01(void) { return (rnd64() >> 11) * (1.0 / 9007199254740
 static inline int rndint(int lo, int hi) { return lo + (int)(rnd64() % (uint64_t)(hi - lo + 1)); }
 
 int cmd_c01(int argc, char **argv);
+int cmd_c11(int argc, char **argv);
+typedef double (*xrl_f2)(int, int, xrl_error **);
+void emit_row(const char *key, xrl_f2 f, int Z, int lo, int hi);
 #endif
